@@ -335,6 +335,36 @@ def run(ck):
                              "%s(%s): %s - the float64 operand is cast to the float32 dtype of cplx.I before the product, the result is single precision (relative error ~3e-8)"
                              % (fname, "cplx.I, y" if order == "I first" else "y, cplx.I", nar[0][1] if nar else ""), key="C15.R7|%s|narrowed by cplx.I" % fname)
     ck.require_min("C15.R7", 6)
+    # ------------------------------------------------------------ R8 every call computes from the operands as they are now
+    # "each function returns the value its definition names": a float32 scalar operand (a user's own, or cplx.I) that was
+    # overwritten in place between two calls enters the second product with its current value
+    for fname, shp in (("scalar_mult", ("n",)), ("inner_prod", ())):
+        inst = "%s/float32 scalar overwritten in place between two calls" % fname
+        with ck.guard("C15.R8", inst):
+            fi8 = ck.program.func(MOD, fname)
+
+            def th8(it, shp=shp, fi8=fi8):
+                o = it.new_tobj("tensor", T.stack0(T.sym("sr"), T.sym("si")), (2,), "param:s")
+                o.fw = 32
+                sc = VTens(o)
+                y = cx(it, "y", shp)
+                r1 = it.call_function(VFunc(fi8), [sc, y], {}, None)
+                t1 = r1.term if isinstance(r1, VTens) else None
+                it.write(sc, T.stack0(T.sym("sr'"), T.sym("si'")), None, "copy_ (history protocol)")
+                r2 = it.call_function(VFunc(fi8), [sc, y], {}, None)
+                return t1, (r2.term if isinstance(r2, VTens) else None)
+
+            for p in [q for q in paths_of(ck.program, th8, max_paths=24, sticky=True) if q.outcome == "return"]:
+                t1, t2 = p.value
+                if t1 is None or t2 is None:
+                    ck.undecided("C15.R8", inst + " [%s]" % path_tag(p), fi8.site(), "the products are not followed")
+                    continue
+                want = T.rename_syms(t1, {"sr": "sr'", "si": "si'"})
+                stale = t2.syms() & {"sr", "si"}
+                ck.check(True if t2 == want else (False if stale else None), "C15.R8", inst + " [%s]" % path_tag(p), fi8.site(),
+                         "after the scalar operand was overwritten in place the second call still multiplies by its previous value (%s): a converted copy kept from the first call is reused"
+                         % ", ".join(sorted(stale)), key="C15.R8|%s|stale operand" % fname)
+    ck.require_min("C15.R8", 2)
     ck.require_min("C15.R5", 9)
     ck.require_min("C15.R6", 40)
     ck.assumptions += [
